@@ -30,6 +30,7 @@ def main : IO UInt32 := do
   | ["model", "forest"] => loopState stdin stdout Forest.driverStep {}
   | ["model", "index"] => loopState stdin stdout Index.driverStep {}
   | ["model", "msg"] => loopPure stdin stdout Msg.driverStep
+  | ["model", "symexpr"] => loopState stdin stdout SymExpr.driverStep {}
   | _ => IO.eprintln s!"unknown model line: {first}"; return 2
   stdout.flush
   return 0
